@@ -45,6 +45,10 @@ claim("C01", "static analysis over the CHA-reachable scope of the listener handl
       "Decides for the ~120 functions reachable from HTTP.request / External.Request: every index/slice is in bounds (proved, or listed with its argument in tables/bounds_reviewed.json); every unchecked type assertion has a dynamic type fixed by construction; every dereference of a nullable result or optional field (incl. nullable arguments to callees that dereference them) is dominated by a nil/existence test; no reachable panic/Fatal/Exit, divide-by-zero or nil-map write; every loop is range/counted/CanIRead-conditioned with progress or reviewed; every mutex acquired is released on every path; no slice is shrunk inside its own range loop without leaving it; no state-changing call precedes a rejecting return and the failing edge reaches the decoy. Not decided: stack/memory exhaustion, blocking inside third-party service round-trips, concurrency (see C04/C15).",
       TRUST + " tables/bounds_reviewed.json lists the residue (index, nil, loop and abort obligations) the prover cannot reach, each with its argument; heap-slice equalities assume no concurrent writer.", "DESIGN.md §3 R1/R3/R5, §4 C01")
 
+claim("C09", "static analysis: SSA same-object pairing of every store to Pivots.Links with the Parent store and the LinkAdd/LinkRemove call, must-call of the DB mirror, dominance of the reconnect append by an ancestor-walk guard, range-mutation rule, append-only session table",
+      "Decides: every append of a child to a parent's links is paired (same straight-line region, same SSA objects) with child.Parent = parent and LinkAdd(parent, child); every removal outside LinkRemove is accompanied by LinkRemove for that parent; LinkRemove always reaches DB.LinkRemove and clears the child's Parent; LinkAdd always reaches DB.LinkAdd; the reconnect append of a packet-named existing agent is dominated by the negative outcome of a walk over .Pivots.Parent from the sender comparing with that agent, with nothing else conditioning the flag; no link list is shrunk inside its own range loop without leaving it. Not decided: the invariant over arbitrary event sequences, DB/list equality after failures of individual SQL statements.",
+      TRUST, "DESIGN.md §4 C09")
+
 for i in range(1, 21):
     pid = "C%02d" % i
     if pid not in CLAIMS and pid not in NA:
